@@ -4,6 +4,7 @@ import (
 	"encoding/binary"
 	"github.com/valyala/bytebufferpool"
 	"hash/crc32"
+	"io"
 )
 
 type LogRecordType = byte
@@ -187,10 +188,19 @@ func DecodeHintRecord(buf []byte) ([]byte, *DataPos) {
 	}
 }
 
+// DecodeChunk 对 block 起始位置的 chunk 解码
+// block 必须恰好截止于当前 Block 的有效数据末尾:
+// 头部或数据超出 block 时返回 io.ErrUnexpectedEOF, 不会越界访问
 func DecodeChunk(block []byte) ([]byte, ChunkType, error) {
+	if len(block) < chunkHeaderSize {
+		return nil, 0, io.ErrUnexpectedEOF
+	}
 	// length
 	length := binary.LittleEndian.Uint16(block[4:6])
 	start, end := chunkHeaderSize, chunkHeaderSize+uint32(length)
+	if end > uint32(len(block)) {
+		return nil, 0, io.ErrUnexpectedEOF
+	}
 	checksum := crc32.ChecksumIEEE(block[4:end])
 	savedSum := binary.LittleEndian.Uint32(block[:4])
 	if savedSum != checksum {
